@@ -1,8 +1,37 @@
 /- Pure-function calls: `call <fn> <args…>` -> one observation line. Stateless. -/
 import Driver.Util
 import WW.Model.CpSwap
+import WW.Model.Slippage
+import WW.Model.SlippageExec
 namespace Driver
 open WW
+
+/-- `Option` argument: `none` or a number -/
+def optNat? (w : String) : Option (Option Nat) :=
+  if w == "none" then some none else (w.toNat?).map some
+
+def showUnit (_ : Unit) : String := ""
+
+/-- bounds the `slippage:exec` engine puts on the numbers of a self-contained executed case -/
+def xMinPool : Nat := 2000
+def xPoolCap : Nat := 2 ^ 100
+def xSsCap : Nat := 2 ^ 80
+def xPoolOk (cap x : Nat) : Bool := xMinPool ≤ x && x ≤ cap
+def xAmtOk (cap x : Nat) : Bool := 1 ≤ x && x ≤ cap
+
+/-- pair up `[a, b, c, d, …]` -/
+def pairs? : List Nat → Option (List (Nat × Nat))
+  | [] => some []
+  | a :: b :: rest => (pairs? rest).map ((a, b) :: ·)
+  | _ => none
+
+def xRoute (toW : String) (offer : Nat) (ms minr : Option Nat) (prev : Nat) (f : Fees) (k : Nat)
+    (res : List (Nat × Nat)) : String :=
+  if !(toW == "self" || toW == "other") then "bad-op"
+  else if !(1 ≤ k && k ≤ 3 && res.length == k) then "bad-op"
+  else if !(xAmtOk xPoolCap offer && prev ≤ xPoolCap && f.valid
+      && res.all (fun r => xPoolOk xPoolCap r.1 && xPoolOk xPoolCap r.2)) then "bad-op"
+  else showRes (fun r => s!"recv={r}") (routeChecked f ms minr prev res offer)
 
 def showSwap (c : SwapComp) : String :=
   showNats [c.ret, c.spread, c.swapFee, c.protFee, c.burnFee]
@@ -24,6 +53,64 @@ def pureCall (ws : List String) : String :=
         else "ok " ++ showSwap c ++ " | " ++ showRes showSwap (cpSwap ap2 (op + off) c.ret f)
       | r => showRes showSwap r
     | _ => "bad-op"
+  | ["max_spread", b, m, off, ret, sp] =>
+    match optNat? b, optNat? m, nats? [off, ret, sp] with
+    | some b, some m, some [off, ret, sp] => showRes showUnit (assertMaxSpread b m off ret sp)
+    | _, _, _ => "bad-op"
+  | "pair_slippage" :: kind :: tol :: args =>
+    let k : Option PoolKind :=
+      if kind == "cp" then some .constantProduct else if kind == "ss" then some .stableSwap else none
+    match k, optNat? tol, nats? args with
+    | some k, some t, some [d0, d1, p0, p1, amount, supply] =>
+      showRes showUnit (pairAssertSlippage t d0 d1 p0 p1 k amount supply)
+    | _, _, _ => "bad-op"
+  | "trio_slippage" :: tol :: args =>
+    match optNat? tol, nats? args with
+    | some t, some [d0, d1, d2, p0, p1, p2, amount, supply] =>
+      showRes showUnit (trioAssertSlippage t d0 d1 d2 p0 p1 p2 amount supply)
+    | _, _ => "bad-op"
+  | "min_receive" :: args =>
+    match nats? args with
+    | some [prev, m, cur] => showRes showUnit (assertMinimumReceive prev m cur)
+    | _ => "bad-op"
+  | ["x_swap", op, ap, off, pr, sw, bu, b, m] =>
+    match nats? [op, ap, off, pr, sw, bu], optNat? b, optNat? m with
+    | some [op, ap, off, pr, sw, bu], some b, some m =>
+      let f : Fees := { prot := pr, swap := sw, burn := bu }
+      if xPoolOk xPoolCap op && xPoolOk xPoolCap ap && xAmtOk xPoolCap off && f.valid then
+        showRes (fun r => s!"recv={r}") (pairSwapChecked op ap off f b m)
+      else "bad-op"
+    | _, _, _ => "bad-op"
+  | ["x_cp_deposit", p0, p1, d0, d1, tol] =>
+    match nats? [p0, p1, d0, d1], optNat? tol with
+    | some [p0, p1, d0, d1], some t =>
+      if xPoolOk xPoolCap p0 && xPoolOk xPoolCap p1 && xAmtOk xPoolCap d0 && xAmtOk xPoolCap d1 then
+        showRes (fun r => s!"lp={r}") (cpDepositChecked p0 p1 d0 d1 t)
+      else "bad-op"
+    | _, _ => "bad-op"
+  | ["x_ss_deposit", p0, p1, d0, d1, amp, tol, amount, supply] =>
+    match nats? [p0, p1, d0, d1, amp, amount, supply], optNat? tol with
+    | some [p0, p1, d0, d1, amp, amount, supply], some t =>
+      if xPoolOk xSsCap p0 && xPoolOk xSsCap p1 && xAmtOk xSsCap d0 && xAmtOk xSsCap d1
+          && 1 ≤ amp && amp ≤ 1000000 then
+        showRes (fun r => s!"lp={r}") (ssDepositChecked p0 p1 d0 d1 t amount supply)
+      else "bad-op"
+    | _, _ => "bad-op"
+  | ["x_trio_deposit", p0, p1, p2, d0, d1, d2, amp, tol, amount, supply] =>
+    match nats? [p0, p1, p2, d0, d1, d2, amp, amount, supply], optNat? tol with
+    | some [p0, p1, p2, d0, d1, d2, amp, amount, supply], some t =>
+      if xPoolOk xSsCap p0 && xPoolOk xSsCap p1 && xPoolOk xSsCap p2 && xAmtOk xSsCap d0
+          && xAmtOk xSsCap d1 && xAmtOk xSsCap d2 && 1 ≤ amp && amp ≤ 1000000 then
+        showRes (fun r => s!"lp={r}") (trioDepositChecked p0 p1 p2 d0 d1 d2 t amount supply)
+      else "bad-op"
+    | _, _ => "bad-op"
+  | "x_route" :: k :: toW :: off :: m :: minr :: rest =>
+    match nats? [k, off], optNat? m, optNat? minr, nats? rest with
+    | some [k, off], some m, some minr, some (prev :: pr :: sw :: bu :: res) =>
+      match pairs? res with
+      | some res => xRoute toW off m minr prev { prot := pr, swap := sw, burn := bu } k res
+      | none => "bad-op"
+    | _, _, _, _ => "bad-op"
   | _ => "bad-op"
 
 end Driver
